@@ -566,19 +566,17 @@ End Sound.
 (** * Completeness, rule by rule: a breach makes the entity's error list non-empty *)
 
 Ltac nonempty :=
-  repeat match goal with
-         | |- context [if ?c then _ else _] => destruct c
-         end; cbn [app flat_map]; try discriminate.
+  cbv beta iota;
+  let E := fresh "E" in
+  intros E; apply (f_equal (@List.length message)) in E; rewrite ?app_length in E;
+  cbn [List.length] in E; lia.
 
 Ltac find_in :=
   solve [ now left
         | apply in_or_app; left; find_in
         | apply in_or_app; right; find_in
         | right; find_in ].
-Ltac find_msg :=
-  repeat match goal with
-         | |- context [if ?c then _ else _] => destruct c
-         end; find_in.
+Ltac find_msg := cbv beta iota; find_in.
 
 Lemma nonempty_has_id id r :
   all_id id r -> errors r <> [] -> exists m, In m (errors r) /\ m_id m = id.
@@ -1207,6 +1205,21 @@ Section Statements.
     /\ count_dims (breach convertible RInterval) (entities f)
       <= count_msgs (msg_eqb unknown_id interval_text) (errors (validate isSIUnit isCompoundSIUnit isScalable vt vp f)).
   Proof. split; [apply complete_dims_unsorted | apply complete_dims_interval]. Qed.
+
+  (** the same per owning array: the part of the walk that belongs to array [a] (its own table, then its
+      dimensions) contains, per rule text, at least as many "unknown" errors as [a] has breaching dimensions *)
+  Lemma complete_dims_per_array_for a :
+    count_dims (breach convertible RUnsorted) (array_entities a)
+      <= count_msgs (msg_eqb unknown_id unsorted_text) (errors (walk_array isSIUnit isCompoundSIUnit a))
+    /\ count_dims (breach convertible RInterval) (array_entities a)
+      <= count_msgs (msg_eqb unknown_id interval_text) (errors (walk_array isSIUnit isCompoundSIUnit a)).
+  Proof.
+    pose proof (sel_walk_array isSIUnit isCompoundSIUnit isScalable AsPinned AsPinned true a) as Hw. cbn [sel] in Hw.
+    rewrite Hw. unfold count_dims. split; apply count_flat_map_ge; intros e _ Hq;
+      apply andb_prop in Hq; destruct Hq as [Hd Hb]; destruct e; try discriminate; cbn [validate_ent].
+    - exact (count_msgs_in _ _ _ (complete_unsorted isSIUnit convertible owner idx d Hb) (msg_eqb_refl _ _)).
+    - exact (count_msgs_in _ _ _ (complete_interval isSIUnit convertible owner idx d Hb) (msg_eqb_refl _ _)).
+  Qed.
 
   Lemma soft_for vt f r e :
     In e (entities f) -> soft validSI r e = true -> conforms_ent atomicSI convertible e = true ->
